@@ -159,3 +159,15 @@ coap_prng_lkd(void *buf, size_t len) {
   return 1;
 }
 #endif
+
+#ifndef VERIF_REPLAY
+/* glibc's isprint()/isdigit() macros index a table obtained from __ctype_b_loc(); CBMC has no body for it.
+ * Model: a 384-entry table with arbitrary classification bits (the classification only selects which character
+ * is printed by debug code; bounds of the index -128..255 are still checked). */
+static unsigned short env_ctype_tab[384];
+static const unsigned short *env_ctype_ptr = env_ctype_tab + 128;
+const unsigned short **
+__ctype_b_loc(void) {
+  return &env_ctype_ptr;
+}
+#endif
